@@ -51,6 +51,8 @@ Proof.
   - unfold mux_remove. repeat case_match; done.
   - unfold mux_clear_group. repeat case_match; done.
   - unfold mux_clear_all. repeat case_match; done.
+  - unfold enum_clone. repeat case_match; done.
+  - unfold eval_clone, lift3. destruct (evals (base (l3 s)) !! v) as [V|]; [|done]. cbn. unfold new_enum_value, alloc, ok. cbn. done.
 Qed.
 
 (* ---- a name in use is refused ---------------------------------------------------------------------- *)
